@@ -66,7 +66,7 @@ def run(ctx):
     ctx.rule('C17.a-stack-erasures', 'the 65536-entry erasure array is a stack local, not a heap allocation')
     for cfg in cfgs:
         facts = ctx.facts(cfg)
-        check(ctx, facts, cfg)
+        ctx.guard('C17.analysable', check, ctx, facts, cfg)
 
 
 ROUND_TRAIT_METHODS = {'rate::RateEncoder': ('add_original_shard', 'encode'),
